@@ -324,8 +324,48 @@ def same_lists(F, rep):
         rep.unresolved("R7", "report-list-walks", f"only {n} walks over the report's lists found in presentation code")
 
 
+def sibling_holdings_filter(F, rep):
+    """R8 (the front-ends list the same holdings): the text and the PDF report both show the holdings that still have shares; the
+    predicate each applies to `report.holdings` must be the same one — a formatter that also requires, say, a positive cost drops a
+    holding the other one (and the JSON) shows (seeded change C17-s6)."""
+    from mir import closure_summary
+    preds = {}
+    for b in F.bodies.values():
+        if b.crate not in ("cgt_formatter_plain", "cgt_formatter_pdf") or not P.user_written(F, b):
+            continue
+        tb = None
+        for i, t in b.calls():
+            if parse_callee(t["callee"])[2] not in ("filter", "retain") or len(t["args"]) < 2:
+                continue
+            tb = tb or Terms(F, b, inline_depth=0)
+            recv = tb.operand(t["args"][0])
+            if not any(isinstance(x, tuple) and len(x) == 3 and x[0] == "field" and x[2] == "holdings" for x in subterms(recv)):
+                continue
+            clo = tb.operand(t["args"][1])
+            if isinstance(clo, tuple) and clo and clo[0] == "closure" and clo[1] in F.bodies:
+                cb = F.bodies[clo[1]]
+                ct = Terms(F, cb, inline_depth=0)
+                tests = set()
+                for x in [ct.local(0)] + [ct.operand(cb.term(s_)["discr"]) for s_ in cb.reachable() if cb.term(s_)["k"] == "switch"]:
+                    for y in subterms(x):
+                        if isinstance(y, tuple) and y and y[0] == "cmp":
+                            flds = sorted({z[2] for z in subterms(y) if isinstance(z, tuple) and len(z) == 3 and z[0] == "field" and isinstance(z[2], str)})
+                            tests.add((y[1], tuple(flds)))
+                preds.setdefault(b.crate, set()).update(tests)
+                preds.setdefault(b.crate + ":site", b.loc(t["sp"]))
+    a, c_ = preds.get("cgt_formatter_plain"), preds.get("cgt_formatter_pdf")
+    if a is None or c_ is None:
+        rep.note("R8: a holdings filter was not found in both formatters (nothing to compare)")
+        return
+    ok = a == c_
+    rep.ob("R8", "holdings-filter:plain=pdf", ok, f"text and PDF keep the same holdings ({sorted(a)})" if ok else
+           f"the text report keeps holdings under {sorted(a)}, the PDF under {sorted(c_)}: one of them omits a holding the other shows",
+           preds.get("cgt_formatter_plain:site", ""), key="R8:holdings-filter:plain-vs-pdf")
+
+
 def run(ctx, rep):
     F = ctx.F
+    sibling_holdings_filter(F, rep)
     exact_quantities(F, rep)
     same_named_figures(F, rep)
     same_lists(F, rep)
